@@ -14,7 +14,10 @@ from props.base import NAN, Prop, chunks, dec, decs, enc, encs
 from props.c01 import F, build_carver, build_discretizer, coq_case, gen_case, mk_frame, mset, run_fit
 from props.c02 import key
 
-RENAMES = [lambda i, s: "k" + s, lambda i, s: s.upper(), lambda i, s: f"{i:02d}_{s}", lambda i, s: s + s]
+# order-preserving renamings; the last one uses names that are SUBSTRINGS of the sentinels ('__NAN__', '__OTHER__')
+SENT = ["AN", "N", "NA", "NAN", "OTHER", "_", "__"]
+RENAMES = [lambda i, s: "k" + s, lambda i, s: s.upper(), lambda i, s: f"{i:02d}_{s}", lambda i, s: s + s,
+           lambda i, s: SENT[i] if i < len(SENT) else "z" + s]
 
 
 def exact_affine(vals, a, b):
@@ -59,6 +62,8 @@ def variants(case, rng):
     else:
         j = rng.randrange(len(RENAMES))
         vs.append({"name": f"rename#{j}", "rename": j, "perm": None, "index": None})
+        if j != len(RENAMES) - 1:
+            vs.append({"name": f"rename#{len(RENAMES) - 1}", "rename": len(RENAMES) - 1, "perm": None, "index": None})
     return vs
 
 
@@ -184,6 +189,18 @@ def rare_bucket_case(rng):
             "Xdev": None, "ydev": None, "min_freq_mod": None}
 
 
+def big_case(rng):
+    """a sample of more than 20 000 rows with a continuous feature: shortcuts that look at every k-th row of a
+    large sample make the quantiles depend on the row order"""
+    n = rng.choice([24000, 30000])
+    col = [round(rng.gauss(50, 15), 3) for _ in range(n)]
+    y = [1 if rng.random() < min(0.95, max(0.05, (x - 10) / 90)) else 0 for x in col]
+    return {"carver": "binary", "sort_by": rng.choice(["tschuprowt", "cramerv"]), "ftype": "quant",
+            "min_freq": rng.choice([0.05, 0.1]), "max_n_mod": rng.randint(3, 4), "dropna": True,
+            "output_dtype": "float", "X": encs(col), "y": y, "kind": "big", "order": None,
+            "Xdev": None, "ydev": None, "min_freq_mod": None, "no_model": True}
+
+
 def float_tie_case(rng):
     m = rng.randint(3, 5)
     vals = [float(i) for i in range(m)] if rng.random() < 0.6 else ["a", "b", "c", "d", "e"][:m]
@@ -286,6 +303,10 @@ class C11(Prop):
                 # the order of summation (the model is not consulted for these cases)
                 c = float_tie_case(rng)
             c["variants"] = variants(c, rng)
+            cases.append(c)
+        for _ in range(2 if tier == "quick" else 6):
+            c = big_case(rng)
+            c["variants"] = [v for v in variants(c, rng) if not v.get("affine")][:3]
             cases.append(c)
         return cases
 
